@@ -2,6 +2,7 @@ package align
 
 import (
 	"fmt"
+	"math"
 	"unicode"
 )
 
@@ -370,6 +371,16 @@ func (a *pwaligner) backTrack() {
 	}
 }
 
+// sameScore tells whether two scores are equal up to floating point rounding.
+// The matrix is filled by adding the gap extension score cell after cell, while
+// the trace-back computes open + (n-1)*extend: with scores that are not exactly
+// representable (-0.6, -0.1...) both only agree up to their last bits, and with a
+// strict equality the end of a gap run was missed (the gap then ran to the border
+// of the matrix).
+func sameScore(s1, s2 float64) bool {
+	return math.Abs(s1-s2) <= 1e-9*(1.+math.Abs(s1)+math.Abs(s2))
+}
+
 func (a *pwaligner) backTrack_SW() {
 	var i, j, ngaps int
 	var seq1, seq2, alistr []uint8
@@ -392,7 +403,7 @@ func (a *pwaligner) backTrack_SW() {
 			for {
 				ngaps++
 				gapscore = a.matrix[i-ngaps][j] + a.gapopen + float64(ngaps-1)*a.gapextend
-				if gapscore == a.matrix[i][j] || i-ngaps == 0 {
+				if sameScore(gapscore, a.matrix[i][j]) || i-ngaps == 0 {
 					break
 				}
 			}
@@ -422,7 +433,7 @@ func (a *pwaligner) backTrack_SW() {
 			for {
 				ngaps++
 				gapscore = a.matrix[i][j-ngaps] + a.gapopen + float64(ngaps-1)*a.gapextend
-				if gapscore == a.matrix[i][j] || j-ngaps == 0 {
+				if sameScore(gapscore, a.matrix[i][j]) || j-ngaps == 0 {
 					break
 				}
 			}
